@@ -33,7 +33,7 @@ def expand(ctx, fi, expr, at_stmt, depth=0):
     node = _node_for(g, at_stmt)
     if node is None or depth > 12:
         return expr
-    reach = RD.get(node.id, frozenset())
+    reach = RD.get(node.id) or frozenset()
     bynm = {}
     for nm, d in reach:
         bynm.setdefault(nm, set()).add(d)
